@@ -207,8 +207,11 @@ class Lab:
         self.cache = {}
         self.real_gen_vector = VectorAndNumbers.__dict__["gen_vector"]
 
-    def problem_for(self, dim, crit, pstyle):
+    def problem_for(self, dim, crit, pstyle, private=False):
         key = (dim, tuple(crit), pstyle)
+        if private:                     # a Problem of its own (parallel runs: late worker threads must not meet a later session)
+            self.private = getattr(self, "private", 0) + 1
+            key = key + (self.private,)
         if key not in self.cache:
             params = []
             for i in range(dim):
@@ -255,7 +258,7 @@ class Session:
 
     def __init__(self, lab, cfg):
         self.lab, self.cfg = lab, cfg
-        self.problem, self.alg = lab.problem_for(cfg["dim"], cfg["crit"], cfg.get("pstyle", 0))
+        self.problem, self.alg = lab.problem_for(cfg["dim"], cfg["crit"], cfg.get("pstyle", 0), cfg.get("processes", 1) > 1)
         p = self.problem
         p.session = self
         p.individuals = []
@@ -900,7 +903,7 @@ def run(ctx):
     for s in corpus(lab):
         collect(ctx, s, "C05", cases, expected, meta, hist)
         ctx.count(("corpus", len(cases)))
-    n = ctx.pick(900, 20000)
+    n = ctx.pick(1500, 20000)
     for k in range(n):
         fr = 0.0 if k % 4 else 0.12                       # C05 is mostly about clean runs; C06 owns the fault patterns
         s, kinds = random_history(lab, rng, fault_rate=fr, fatal_rate=0.0 if k % 8 else 0.03)
